@@ -10,6 +10,8 @@ package main
 // properties share this proof and differ in which obligations they keep.
 
 import (
+	"fmt"
+	"go/token"
 	"go/types"
 	"regexp"
 	"strconv"
@@ -278,7 +280,7 @@ func runC17(c *CheckCtx) {
 func init() {
 	register(&Property{
 		ID: "C07", Level: "other",
-		Technique: "contract-based deductive verification of the safety skeleton: an assertion at the top of EVAL's loop body (past the poll the context is nil or not done, on every iteration and for every form), and obligation ctx/blocking-select-has-done-case on every blocking select of the context-taking builtins (sleep, Future.Deref): one alternative is a receive from the caller's ctx.Done()",
+		Technique: "contract-based deductive verification of the safety skeleton: an assertion at the top of EVAL's loop body (past the poll the context is nil or not done, on every iteration and for every form), obligation ctx/nested-call-gets-own-or-derived-context at every call from EVAL, eval_ast, do, macroexpand and Apply that passes a context on (it is the caller's own or one derived from it), and ctx/blocking-wait-has-done-case on the context-taking blocking builtins (sleep, Future.Deref): one alternative of their select is a receive from the caller's ctx.Done()",
 		DesignRef: "DESIGN.md §4 C07",
 		Explain:   "partial: the time bound itself (returns within a bound independent of the program) is not decidable by contracts: there is no clock and no blocking semantics in the verifier. Proved: no iteration of the evaluation loop proceeds with a context that was done when polled; the blocking builtins wait on the context among their alternatives",
 		Run:       runC07,
@@ -312,9 +314,35 @@ func waitsOnContext(f *ssa.Function) bool {
 }
 
 func runC07(c *CheckCtx) {
-	jobs := c.jobsFor([]string{"lisp.EVAL", "lib/core.sleep", "(*lib/concurrent.Future).Deref"}, func(f *ssa.Function) *Job {
+	// every context handed to a nested evaluation (or to a builtin) is the caller's own context or a
+	// context derived from it (done whenever the caller's is)
+	savedHook := c.eng.hooks.onCallArgs
+	defer func() { c.eng.hooks.onCallArgs = savedHook }()
+	c.eng.hooks.onCallArgs = func(a *Act, st *State, cc *ssa.CallCommon, args []Term, pos token.Pos) {
+		sig, ok := cc.Value.Type().Underlying().(*types.Signature)
+		if !ok || sig.Params().Len() == 0 || typeStr(sig.Params().At(0).Type()) != "context.Context" || len(args) == 0 {
+			return
+		}
+		if sc := cc.StaticCallee(); sc != nil && sc.Pkg != nil && sc.Pkg.Pkg.Path() == "context" {
+			return // deriving a context is not an evaluation
+		}
+		root := a.tr.rootAct
+		if len(root.fn.Params) == 0 || typeStr(root.fn.Params[0].Type()) != "context.Context" {
+			return
+		}
+		own := root.args[0]
+		a.tr.eng.declareOnce(a.tr, "ctx_parent", "(declare-fun ctx_parent (Val) Val)")
+		goal := Or(Eq(args[0], own), Eq(app("ctx_parent", args[0]), own))
+		loc, src := a.srcLine(pos)
+		fname := fnName(root.fn)
+		base := fmt.Sprintf("%s/ctx/nested-call-gets-own-or-derived-context/«%s»", fname, normSrc(src))
+		a.tr.oblCount[base]++
+		a.tr.obls = append(a.tr.obls, &Obligation{Name: fmt.Sprintf("%s#%d", base, a.tr.oblCount[base]), Kind: "ctx", Fn: fname, Pos: loc,
+			Src: "the context passed on is the caller's or one derived from it", Guard: st.reach, Goal: goal})
+	}
+	jobs := c.jobsFor([]string{"lisp.EVAL", "lisp.eval_ast", "lisp.do", "lisp.macroexpand", "types.Apply", "lib/core.sleep", "(*lib/concurrent.Future).Deref"}, func(f *ssa.Function) *Job {
 		j := &Job{Fn: f, PanicMode: "ignore"}
-		if f.Name() != "EVAL" {
+		if f.Name() == "sleep" || f.Name() == "Deref" {
 			j.Setup = func(tr *Tr, a *Act, st *State, args []Term) {
 				goal := "false"
 				if waitsOnContext(f) {
@@ -332,6 +360,6 @@ func runC07(c *CheckCtx) {
 		return o.Kind == "ctx" || (o.Kind == "assert" && strings.Contains(o.Src, "done(ctx)"))
 	})
 	c.assumptions["no clock and no blocking semantics: 'promptly' is not decided; a context is an abstract value with a done predicate, a receive from ctx.Done() succeeds exactly when it is done, a non-blocking select takes that case when it is ready"] = true
-	c.assumptions["that every recursive evaluation receives the caller's context or a child of it is visible at the call sites (ctx is passed through unchanged except in try), not a separate obligation"] = true
+	c.assumptions["a context derived with context.WithTimeout/WithCancel is done whenever its parent is (stub fact ctx_parent)"] = true
 	c.assumptions["futures: that the body of a future runs under a context derived from its creator's is not checked here"] = true
 }
